@@ -501,6 +501,62 @@ def main():
                 if not agree:
                     disagreements.append(c)
 
+    # ---- 6a: a disagreement is re-examined in isolation before it counts.  Cases run 16 at a time with timeouts of tens
+    # of milliseconds; under load an operation may time out although the device answered, and the logged schedule of
+    # such a run can end in the middle of an operation.  A divergence between model and code is deterministic: it shows
+    # again when the case is replayed alone.  Each disagreeing case (at most 25) is replayed up to three times and kept
+    # as a disagreement only if model and implementation disagree every time.
+    redone = redone_cleared = 0
+    if disagreements and not replay_file and not any(b[0] in ("harness-build", "model-runner") for b in broken):
+        still = []
+        for c in disagreements:
+            if redone >= 25 or c.get("oracle"):
+                still.append(c)
+                continue
+            redone += 1
+            rf = os.path.join(wd, "redo_%s.json" % c["id"].replace("/", "_"))
+            with open(rf, "w") as f:
+                json.dump({"id": c["id"], "replay": c.get("replay")}, f)
+            cleared = None
+            want_kind = c.get("kind")
+            for attempt in range(3):
+                try:
+                    p = subprocess.run([hb, "-replay", rf, pid], stdout=subprocess.PIPE, stderr=subprocess.PIPE,
+                                       env=dict(os.environ, VERIF_WORK=wd, VERIF_REPO=REPO, VERIF_DIR=VERIF), timeout=180)
+                except subprocess.TimeoutExpired:
+                    break
+                rr = [json.loads(l) for l in p.stdout.decode("utf-8", "replace").splitlines() if l.startswith("{")]
+                rr = [x for x in rr if x.get("line") and (x.get("id") == c["id"] or len(rr) == 1)]
+                if len(rr) != 1 or rr[0].get("oracle"):
+                    continue
+                mo2, _ = run_model([rr[0]["line"]])
+                if len(mo2) != 1:
+                    continue
+                rr[0]["model"] = mo2[0]
+                if cfg.get("compare", "eq") == "eq":
+                    ok2 = (mo2[0] == rr[0]["obs"])
+                else:
+                    ok2 = rr[0]["obs"].strip() in [x.strip() for x in mo2[0].split(" | ")]
+                if ok2:
+                    cleared = rr[0]
+                    break
+            try:
+                os.remove(rf)
+            except OSError:
+                pass
+            if cleared is not None:
+                cleared["retimed"] = "disagreement"
+                redone_cleared += 1
+                for i2, c2 in enumerate(cases):
+                    if c2 is c:
+                        cases[i2] = cleared
+                for i2, c2 in enumerate(model_cases):
+                    if c2 is c:
+                        model_cases[i2] = cleared
+            else:
+                still.append(c)
+        disagreements = still
+
     # ---- 6b: the theorem's hypotheses evaluated by the model on the cases that carry a hyp_line
     hyp_cases = [c for c in cases if c.get("hyp_line")]
     hyp_evaluated = hyp_true = 0
@@ -591,6 +647,7 @@ def main():
             "coqchk": coqchk,
             "rx_strings_checked": rx_cases, "rx_disagreements": rx_bad,
             "timing_sensitive_failures_rerun_in_isolation": retimed, "of_which_passed_when_run_alone": retimed_cleared,
+            "disagreements_rerun_in_isolation": redone, "of_which_agreed_when_run_alone": redone_cleared,
             "pure_function_inputs_checked": pf_cases, "pure_function_disagreements": pf_bad,
             "broken": [{"what": w, "detail": d[:600]} for w, d in broken],
             "modelled_functions_changed_since_review": changed_funcs,
